@@ -116,6 +116,8 @@ func c02Cases(c *h.Ctx) error {
 		return err
 	}
 	counts := map[string]int{}
+	var reuseV1 *ntlmv1.NTLMv1
+	var reuseBuf []byte
 	// pass 1: the exhaustive parity table (also validates hExpand)
 	for _, k := range all {
 		if k.K != "parity" {
@@ -166,6 +168,29 @@ func c02Cases(c *h.Ctx) error {
 			c02V1(c, "ntlmv1.NewNTLMv1WithNTHash", func() (*ntlmv1.NTLMv1, error) {
 				return ntlmv1.NewNTLMv1WithNTHash("DOM", "user", append(make([]byte, 0, 16), k.Hash...), append([]byte(nil), k.Chal...))
 			}, want, smp)
+			// history: ONE instance whose hash buffer is refilled in place (and whose challenge is replaced) from case to
+			// case -- the response must always be DESL(current hash, current challenge), whichever entry point is asked
+			if reuseV1 == nil {
+				reuseBuf = make([]byte, 16)
+				copy(reuseBuf, k.Hash)
+				reuseV1, _ = ntlmv1.NewNTLMv1WithNTHash("DOM", "user", reuseBuf, append([]byte(nil), k.Chal...))
+				if reuseV1 != nil {
+					reuseV1.NTResponse()
+				}
+			} else {
+				copy(reuseBuf, k.Hash)
+				reuseV1.ServerChallenge = append([]byte(nil), k.Chal...)
+				r1, _ := reuseV1.NTResponse()
+				r2, _ := reuseV1.Hash()
+				r3, _ := reuseV1.NTResponse()
+				c.Exec(3)
+				if !bytes.Equal(r1, want) || !bytes.Equal(r3, want) {
+					c.Fail("ntlmv1.NTLMv1.NTResponse", "desl:instance-reused-hash-refilled-in-place", fmt.Sprintf("spec %x code %x / %x", want, r1, r3), smp)
+				}
+				if !bytes.Equal(r2, want) {
+					c.Fail("ntlmv1.NTLMv1.Hash", "desl:instance-reused-hash-refilled-in-place", fmt.Sprintf("spec %x code %x", want, r2), smp)
+				}
+			}
 			// the same hash handed over as a window of a larger array: result must not change; writing past it is D
 			arr := append(append(make([]byte, 0, 40), k.Hash...), bytes.Repeat([]byte{0xEE}, 24)...)
 			n, err := ntlmv1.NewNTLMv1WithNTHash("DOM", "user", arr[:16], append([]byte(nil), k.Chal...))
